@@ -155,12 +155,13 @@ class Network:
         :param peer: the peer to update the services for.
         :param services: the list of services to register.
         """
+        services = set(services)  # The given iterable may be a one-shot generator: we need to go over it twice.
         with self.graph_lock:
             key_material = peer.public_key.key_to_bin()
             if key_material not in self.services_per_peer:
                 self.services_per_peer[key_material] = set(services)
             else:
-                self.services_per_peer[key_material] |= set(services)
+                self.services_per_peer[key_material] |= services
             for service in services:
                 service_cache = self.reverse_service_lookup.get(service, None)
                 if service_cache is not None:
